@@ -30,6 +30,9 @@ func NewServerProtocolFreeCollector() *ServerProtocolFreeCollector {
 
 func (self *ServerProtocolFreeCollector) Collect(slock *SLock, glock *sync.Mutex, lockedFreeCommands *LockCommandQueue, totalCommandCount uint64) error {
 	currentTime := time.Now().Unix()
+	if currentTime <= self.lastCollectTime {
+		return nil // a connection younger than one second: nothing to average over yet
+	}
 	avgCommandCount := int((totalCommandCount - self.lastTotalCommandCount) / uint64(currentTime-self.lastCollectTime))
 	glock.Lock()
 	freeLockCommandCount := int(lockedFreeCommands.Len())
